@@ -8,7 +8,7 @@ static const Info I = {
     "(FIFO of items, FIFO of waiting pops). Threads: 1..3 producers x 1..3 consumers (coroutine or blocking) on the virtual runtime with generated/swept schedules; oracle = multiset delivered == pushed, "
     "no duplicates, per-consumer per-producer order, single consumer sees non-overlapping pushes in order, queue empty at the end, no deadlock. "
     "Non-trivial = (history) a pop was parked and later served, (threads) >=1 context switch; distinct = hash(decoded program, executed switch trace).",
-    scen_queue::class_names, 6, scen_queue::counter_names, 3};
+    scen_queue::class_names, 6, scen_queue::counter_names, 4};
 const Info &info() { return I; }
 void run_case(Reader &r) { scen_queue::run(r, false); }
 std::string describe(Reader &r) { return scen_queue::describe(r, false); }
